@@ -40,6 +40,9 @@ OBLIGATIONS = [
      "statement": "a client TLS session exists only with clientTls.enabled and defaultMode == Client; its context is a client context"},
     {"id": "C07_T3_failfast", "theorem": "Iora.C07.T3_server_failfast", "kind": "proved",
      "statement": "server verifyPeer without CA / unloadable CA / unreadable, unloadable, mismatching or expired certificate => start() refuses"},
+    {"id": "C07_T3_authenticated", "theorem": "Iora.C07.T3_client_authenticated", "kind": "proved",
+     "statement": "forall configuration with ciphers != enablesAnon, files, target, store, peer, H assumed: a verifyPeer client that completes the handshake faces a "
+                  "TLS peer owning a certificate that chains, is in time and (target = name) names it"},
     {"id": "C07_T4_engine", "theorem": "Iora.C07.T4_engine_hostcheck", "kind": "proved",
      "statement": "connecting by NAME: SNI = name always, SSL_set1_host(name) whenever verifyPeer (every name, configuration)"},
     {"id": "C07_T4_http_refuted", "theorem": "Iora.C07.T4_http_refuted", "kind": "refuted", "finding": "F20-http",
@@ -65,7 +68,15 @@ OBLIGATIONS = [
     {"id": "C07_T6_only_if", "theorem": "Iora.C07.T6_client_only_if", "kind": "proved",
      "statement": "the property's 'only if' spelled out: announced with verification on => chain, validity, name (by-name), possession, >= TLS 1.2"},
     {"id": "C07_T7_silent", "theorem": "Iora.C07.T7_tls_session_never_clear", "kind": "proved",
-     "statement": "forall event sequences: a TLS session never writes application bytes raw; nothing is announced or written before SSL_do_handshake returned 1"},
+     "statement": "forall event sequences (immediate-connect check, epoll events with any handshake answer, sends): a TLS session never writes raw, from doSend or writePending; "
+                  "nothing is announced or written before SSL_do_handshake returned 1; every guard fact of Gen is consumed by the machine"},
+    {"id": "C07_T7_outcomes", "theorem": "Iora.C07.T7_handshake_outcomes", "kind": "proved",
+     "statement": "forall sessions in the handshake: WANT_READ/WRITE changes and emits nothing; a fatal result closes, drops the queue, one onClose"},
+    {"id": "C07_T10_settings", "theorem": "Iora.C07.T10_settings_in_force", "kind": "proved",
+     "statement": "forall histories of setTlsConfig / requests / DNS accessors: the settings the client context was built from are the ones setTlsConfig accepted last"},
+    {"id": "C07_Gen_pins", "theorem": "Iora.C07.Gen_pins", "kind": "proved",
+     "statement": "generated facts the model takes for granted: TLS_*_method, set1_host fail-closed, localhost -> 127.0.0.1, redundant announce guard, "
+                  "verification-relevant OpenSSL calls confined to the mirrored functions (decide over the call inventory)"},
     {"id": "C07_T8_requested", "theorem": "Iora.C07.T8_requested_tls_never_clear", "kind": "proved",
      "statement": "forall configuration, request != None, event sequence: no application byte goes out in clear (plan + session machine)"},
     {"id": "C07_T8_listener", "theorem": "Iora.C07.T8_listener_tls_never_clear", "kind": "proved",
@@ -99,6 +110,10 @@ def srv(verify=0, trust="none", own="valid", ccert="none", ceil="13", peer="tls"
 
 def hurl(scheme="https", form="ipport", verify=1, peer="dual"):
     return "hurl %s %s %d %s" % (scheme, form, verify, peer)
+
+
+def hreconf(v1, trigger, v2):
+    return "hreconf %d %s %d" % (v1, trigger, v2)
 
 
 def hreuse(first, second, verify=0):
@@ -150,10 +165,18 @@ def gen_cases(ctx, rng):
         # a minVersion the library does not know (or silently ignores), with and without a cipher string that lowers the security level
         for minv in BOGUS_MINS:
             for ceil in ("11", "13"):
-                for ciphers in (None, "seclevel0"):
+                for ciphers in (None, "seclevel0", "noanon0"):
                     out.append(case("cli-min-bogus" + tag, cli(api=api, minv=minv, ceil=ceil, et=et, batch=batch, ciphers=ciphers)))
         for ceil in CEILS:
             out.append(case("cli-min-bogus" + tag, cli(api=api, ceil=ceil, et=et, batch=batch, ciphers="seclevel0")))
+        # anonymous key exchange: a peer that shows NO certificate, against the default cipher list (must fail), a string that only
+        # lowers the security level (must fail) and a string that enables aNULL (documented: verification is void - outside the property)
+        for verify in (0, 1):
+            for ciphers in (None, "noanon0", "seclevel0"):
+                for ceil in ("12", "13"):
+                    out.append(case("cli-anon" + tag, cli(api=api, verify=verify, trust="right" if verify else "none", peer="anon", ceil=ceil, et=et, batch=batch,
+                                                          ciphers=ciphers)))
+                out.append(case("cli-anon" + tag, cli(api=api, verify=verify, trust="wrong" if verify else "none", ceil="12", et=et, batch=batch, ciphers=ciphers)))
         for trust in ("path", "badfile", "missing"):
             for verify in (0, 1):
                 out.append(case("cli-trustform" + tag, cli(api=api, verify=verify, trust=trust, et=et, batch=batch)))
@@ -184,10 +207,17 @@ def gen_cases(ctx, rng):
             out.append(case("srv-min" + tag, srv(minv=minv, ceil="11", et=et, batch=batch)))
         for minv in BOGUS_MINS:
             for ceil in ("11", "13"):
-                for ciphers in (None, "seclevel0"):
+                for ciphers in (None, "seclevel0", "noanon0"):
                     out.append(case("srv-min-bogus" + tag, srv(minv=minv, ceil=ceil, et=et, batch=batch, ciphers=ciphers)))
         for ceil in CEILS:
             out.append(case("srv-min-bogus" + tag, srv(ceil=ceil, et=et, batch=batch, ciphers="seclevel0")))
+        for verify in (0, 1):
+            for ciphers in (None, "noanon0", "seclevel0"):
+                for ceil in ("12", "13"):
+                    out.append(case("srv-anon" + tag, srv(verify=verify, trust="right" if verify else "none", peer="anon", ceil=ceil, et=et, batch=batch,
+                                                          ciphers=ciphers)))
+                out.append(case("srv-anon" + tag, srv(verify=verify, trust="right" if verify else "none", ccert="cuntrusted", ceil="12", et=et, batch=batch,
+                                                      ciphers=ciphers)))
         # a server that sends first (greeting from onAccept, i.e. before the handshake of the accepted session has run)
         for peer in ("plainread", "tls", "plain"):
             for ceil in ("12", "13"):
@@ -258,6 +288,11 @@ def gen_cases(ctx, rng):
         for second in ("http", "https"):
             for verify in (0, 1):
                 cs.append(case("reuse", hreuse(first, second, verify)))
+    # ---- HttpClient: configuration history (setTlsConfig before / after the transport exists), server certificate SELF-SIGNED
+    for v1 in (0, 1):
+        for trigger in ("get", "dns", "none"):
+            for v2 in (0, 1):
+                cs.append(case("reconf", hreconf(v1, trigger, v2)))
     # ---- HttpServer
     hs = [hsrv(require=r, ca=ca, own=own, ccert=cc, ceil=ceil) for r in (0, 1) for ca in TRUSTS for own in SCERTS for cc in CCERTS + ["cexpired"]
           for ceil in (("13",) if quick else ("12", "13"))]
@@ -294,7 +329,13 @@ def parse_line(l):
 
 
 def cell_of(op):
-    t = op.split()
+    d = _cell_of(op)
+    d["opts"] = dict(tok.partition("=")[::2] for tok in op.split() if "=" in tok)
+    return d
+
+
+def _cell_of(op):
+    t = [tok for tok in op.split() if "=" not in tok]
     if t[0] == "cli":
         return dict(kind="cli", api=t[1], verify=t[2] == "1", trust=t[3], scert=t[4], ceil=t[5], peer=t[6], target=t[7], min=int(t[8]), req=t[13],
                     enabled=t[11] == "1", defmode=t[12])
@@ -310,6 +351,8 @@ def cell_of(op):
                     target="name" if t[2] in ("nameport", "dotname", "upperhost") else "ip", peer=t[4], req="client" if secure else "none")
     if t[0] == "hreuse":
         return dict(kind="hreuse", first=t[1], second=t[2], verify=t[3] == "1", req="mixed")
+    if t[0] == "hreconf":
+        return dict(kind="hreconf", v1=t[1] == "1", trigger=t[2], v2=t[3] == "1", req="client")
     if t[0] == "hsrv":
         return dict(kind="hsrv", verify=t[1] == "1", trust=t[2], own=t[3], ccert=t[4], ceil=t[5], peer=t[6], req="server")
     return dict(kind=t[0])
@@ -329,8 +372,16 @@ def monitor(op, impl):
             bad.append("no-downgrade: an https request was carried by a cached PLAIN connection to the same host:port (requests %s then %s, %s connection(s))"
                        % (c["first"], c["second"], o.get("conns")))
         return bad, None
+    if c["kind"] == "hreconf":
+        if o.get("set2") == "ok" and c["v2"] and o.get("r2") == "200":
+            bad.append("client-auth: setTlsConfig{verifyPeer=true} was accepted, yet the next https request returned 200 from a server with a SELF-SIGNED "
+                       "certificate (context verify flags %s; first configuration verifyPeer=%s, initialised by %s)" % (o.get("verify2"), c["v1"], c["trigger"]))
+        return bad, None
     if o.get("plan") == "skip":
         return [], None
+    # a cipher string that enables anonymous key exchange makes certificate verification void by configuration: such cells are
+    # documented by the lockstep (ctx.assumptions), the authentication monitors do not apply to them
+    anon_enabled = c["opts"].get("ciphers") == "seclevel0" and c.get("peer") == "anon"
     connected, appdata, clear = o.get("connected") == "1", o.get("appdata") == "1", o.get("cleartext") == "1"
     finding = None
     if c["req"] != "none" and clear:
@@ -344,7 +395,7 @@ def monitor(op, impl):
             bad.append("version: ServerHello on the wire announces %s (< TLS 1.2)" % o["diag"].get("wirever"))
     if appdata and not connected:
         bad.append("announce: application data exchanged on a session that was never announced")
-    if c["kind"] in ("cli", "http", "hurl") and c["req"] == "client" and c["verify"] and (connected or appdata):
+    if c["kind"] in ("cli", "http", "hurl") and c["req"] == "client" and c["verify"] and (connected or appdata) and not anon_enabled:
         f = CERT_FACTS[c["scert"]]
         why = []
         if f["issuer"] != c["trust"]:
@@ -353,7 +404,9 @@ def monitor(op, impl):
             why.append("certificate is expired")
         if not f["key"]:
             why.append("peer does not own the certificate's key")
-        if c["peer"] not in ("tls", "dual"):
+        if c["peer"] == "anon":
+            why.append("peer showed no certificate at all (anonymous key exchange)")
+        elif c["peer"] not in ("tls", "dual"):
             why.append("peer does not speak TLS")
         name_bad = c["target"] == "name" and not f["name"]
         if name_bad and not why and c["kind"] == "http":
@@ -364,7 +417,9 @@ def monitor(op, impl):
             bad.append("client-auth: connected with verification on although " + "; ".join(why))
     if c["kind"] in ("srv", "hsrv") and c["req"] == "server" and c["verify"] and (connected or appdata):
         why = []
-        if c["ccert"] == "none":
+        if c["peer"] == "anon":
+            why.append("the client showed no certificate (anonymous key exchange)")
+        elif c["ccert"] == "none":
             why.append("the client presented no certificate")
         else:
             f = CERT_FACTS[c["ccert"]]
@@ -481,9 +536,13 @@ def run(ctx: Ctx):
                 ctx.extra["cells_skipped_default_ports_busy"] = ctx.extra.get("cells_skipped_default_ports_busy", 0) + 1
         # a disagreement that no monitor explains may be a timing accident of the real handshake: run those cells once more, alone
         if mism:
-            again, _, _ = ctx.run_lines([hb], [c["ops"][0] for c, _, _ in mism], timeout=900, env=env)
+            slow_env = dict(env)
+            slow_env["C07_SLOW"] = "4"      # every settle window x4: a disagreement that was a timing accident under CPU contention disappears
+            again, _, _ = ctx.run_lines([hb], [c["ops"][0] for c, _, _ in mism], timeout=1500, env=slow_env)
             again += ["crash:rerun"] * (len(mism) - len(again))
-            ctx.extra["cells_rerun"] = len(mism)
+            ctx.extra["cells_rerun_solo_x4_windows"] = len(mism)
+            ctx.extra["timing_mismatches_classified_as_machinery"] = [c["ops"][0] for (c, il, ml), il2 in zip(mism, again)
+                                                                      if head(il2) == ml and not monitor(c["ops"][0], il2)[0]]
             for (c, il, ml), il2 in zip(mism, again):
                 fails, _ = monitor(c["ops"][0], il2)
                 if fails:
@@ -513,6 +572,11 @@ def run(ctx: Ctx):
         if finding_cells and not reproduces:
             ctx.violation("property", "client-auth: HttpClient accepted a wrong-name certificate in a matrix cell but the recorded witness does not reproduce",
                           {"ops": [finding_cells[0][0]], "observed": [finding_cells[0][1]]}, found_input=True)
+    ctx.extra.setdefault("cells_skipped_default_ports_busy", 0)
+    ctx.extra.setdefault("cells_rerun_solo_x4_windows", 0)
+    ctx.extra.setdefault("timing_mismatches_classified_as_machinery", [])
+    if ctx.extra["cells_skipped_default_ports_busy"]:
+        ctx.notes.append("%d no-port URL cell(s) could not bind 127.0.0.1:443/80 and were skipped" % ctx.extra["cells_skipped_default_ports_busy"])
     ctx.extra["input_distribution"] = dist
     ctx.extra["outcome_distribution"] = outcomes
     ctx.extra["repo_tree_sha"] = ctx.repo_tree_sha(ANCHOR_FILES)
@@ -523,12 +587,18 @@ def run(ctx: Ctx):
         "X.509 path validation, signature checks and the record layer are OpenSSL's: they are the parameter H with the hypotheses Handshake.Assumed, not theorems "
         "(the exhaustive matrix correspondence checks them against the installed library)",
         "T4 for the HttpClient path at full strength (refuted: F20-http); only the unresolved-name case is proved",
-        "the session machine of T7/T8 is tied to driveHandshake/onSession/doSend by translator facts and by the early-send cells, not by a step-by-step lockstep",
+        "the session machine of T7/T8 consumes 13 translator facts (each load-bearing: flipping any one breaks a theorem) and is exercised by the early-send / "
+        "greeting cells; it is not run step by step against the engine",
+        "TlsConfig.ciphers strings that enable anonymous key exchange are outside the property (T3_client_authenticated carries the hypothesis; the `anon` cells "
+        "document that SSL_VERIFY_PEER is void for them on a client, while a verifyPeer SERVER still fails closed)",
         "URL forms other than scheme case / host form / default port (userinfo, IPv6 literal, trailing-dot host) are monitored (thorough tier) but not modelled",
     ]
     ctx.assumptions += [
-        "OpenSSL semantics as stated in Handshake.Assumed (client+VERIFY_PEER fails unless chain/validity verify; name checked only after SSL_set1_host; server "
-        "VERIFY_PEER without FAIL_IF_NO_PEER_CERT admits certificate-less clients; negotiated version >= context minimum; non-TLS peer => failure; key possession always checked)",
+        "OpenSSL semantics as stated in Handshake.Assumed, for peers that authenticate (client+VERIFY_PEER fails unless chain/validity verify; name checked only after "
+        "SSL_set1_host; server VERIFY_PEER without FAIL_IF_NO_PEER_CERT admits certificate-less clients; negotiated version >= context minimum; non-TLS peer => failure; key "
+        "possession always checked) and for anonymous key exchange (completes iff our cipher list enables it, TLS <= 1.2, no verification; impossible when a client certificate is required)",
+        "the authentication guarantees assume the cipher list leaves aNULL/eNULL disabled (default, or a TlsConfig.ciphers string that does not enable them); "
+        "TlsConfig.ciphers strings enabling anonymous suites are outside the property",
         "the certificate factory's files are what CertKind.props says (checked every run by the `certtable` line with libcrypto's own verifier)",
         "the system trust store is what SSL_CERT_FILE/SSL_CERT_DIR point to (the harness points them at an empty / chosen store)",
         "SSL_set1_host succeeds for the names of the matrix; SSL_CTX_set_min_proto_version behaves as libSetMin (0 clears, SSL3..TLS1.3 set, anything else changes nothing) - "
